@@ -719,6 +719,13 @@ func (se *SpecEnv) evalCall(x *SExpr) TV {
 	switch name {
 	case "len", "cap":
 		a := se.eval(args[0])
+		// abstracted keys have a length (capacity is not modelled: at least the length)
+		switch k := a.V.(type) {
+		case *KeyV:
+			return TV{k.Len, types.Typ[types.Int]}
+		case *IKeyV:
+			return TV{IAdd(k.U.Len, IntC(8)), types.Typ[types.Int]}
+		}
 		sl, ok := se.asSlice(a)
 		if !ok {
 			se.fail("len of non-slice %s", args[0])
